@@ -127,7 +127,7 @@ register(
     level="proof",
     streams=["fp", "edf", "fifo", "ros_e19", "ros_rr", "ros_bw", "arrival"],
     falsifier=fals_analyses.falsify_C17,
-    partial=["proved for FIFO, the four FP and the four EDF analyses (through C06: the analyses equal naive evaluation, which is monotone) and for the ROS 2 event-source, rr and bw analyses incl. weaker supplies (through C07; rr/bw for an end-of-chain callback with a non-shrinking marginal cost, i.e. any scalar WCET); for the ROS 2 timer analysis EVERY single-parameter hardening is proved (ros_timer_monotone: own arrival curve and WCET, interference, blocking, supply — although its search space is pruned to the own steps), for the polling-point analysis likewise (ros_polling_point_monotone_own + _partial), for the processing-chain analysis harder interference / prefix / supply (ros_chain_monotone_partial); a harder own arrival curve of a CHAIN is explored by the falsifier, not a theorem",
+    partial=["proved for FIFO, the four FP and the four EDF analyses (through C06: the analyses equal naive evaluation, which is monotone) and for the ROS 2 event-source, rr and bw analyses incl. weaker supplies (through C07; rr/bw for an end-of-chain callback with a non-shrinking marginal cost, i.e. any scalar WCET); for the ROS 2 timer analysis EVERY single-parameter hardening is proved (ros_timer_monotone: own arrival curve and WCET, interference, blocking, supply — although its search space is pruned to the own steps), for the polling-point analysis likewise (ros_polling_point_monotone_own + _partial), for the processing-chain analysis likewise (ros_chain_monotone: arrival curve, WCETs of the last callback and of the prefix, other chains, supply)",
              "the analysed task's OWN last non-preemptive segment is not a hardening (own_last_segment_not_monotone) and is excluded"],
     explanation="order-preservation of least solutions and maxima: pointwise larger right-hand sides give larger least fixed points and larger busy windows; the single-parameter hardenings (WCET, jitter, period, blocking, segment, added task) are proved to produce the pointwise orders; limit stability proved.",
 )
